@@ -72,8 +72,9 @@ Example C09_prepeptide_nonvacuous :
   prepeptide_locs g 1 2 = Ok [[mkPart 0 3 1]; [mkPart 3 7 1; mkPart 10 15 1]; [mkPart 15 21 1]].
 Proof. split; [vm_compute; reflexivity|]. split; [vm_compute; reflexivity|]. vm_compute. reflexivity. Qed.
 
-(* the marker of the codon at offset i of a single-exon gene (either strand) lies inside the gene,
-   has three bases and extracts, for every sequence, to bases i..i+3 of the gene's extraction *)
+(* the marker of the three bases at offset i (any offset, not only a codon's) of a single-exon gene
+   (either strand) lies inside the gene, has three bases and extracts, for every sequence, to bases
+   i..i+3 of the gene's extraction *)
 Theorem C09_tta : forall p i,
   pst p = 1 \/ pst p = -1 -> 0 <= ps p -> 0 <= i -> i + 3 <= pe p - ps p ->
   exists m, tta_marker [p] i = Ok m /\ contains [p] m = true /\ llen m = 3 /\
@@ -86,13 +87,42 @@ Example C09_tta_nonvacuous :
   tta_marker [mkPart 10 31 (-1)] 6 = Ok [mkPart 22 25 (-1)].
 Proof. vm_compute. reflexivity. Qed.
 
-(* FALSE for a multi-exon gene (finding tta_multi_exon): the codon at spliced offset 6 of
-   join{[0:4](+), [10:15](+)} is marked at [6:9], in the intron *)
-Theorem C09_tta_multi_exon_refuted :
-  exists g i m, guard_gene g = true /\ 0 <= i /\ i + 3 <= llen g /\
-    tta_marker g i = Ok m /\ contains g m = false /\ idx m <> sublist i (i + 3) (idx g).
-Proof. exact tta_multi_exon_refuted. Qed.
-Print Assumptions C09_tta_multi_exon_refuted.
+(* A gene of several exons (repaired: finding tta_multi_exon, the offset is now mapped through the
+   exons by convert_protein_position_to_dna): for every gene of strand 1/-1 that does not span the
+   origin and every codon r whose three bases are adjacent in the record - they are the coordinates
+   [x, x+3) read in the gene's direction, i.e. the codon lies inside one exon or runs over the border
+   of two exons that adjoin without an intron - the marker of offset 3r is exactly [x, x+3): it
+   reads the coordinates 3r..3r+3 of the gene's reading order and extracts, for every sequence, to
+   bases 3r..3r+3 of the gene's extraction *)
+Theorem C09_tta_multi_exon : forall g r x,
+  guard_gene g = true -> lstrand g = 1 \/ lstrand g = -1 -> 0 <= r -> r + 1 <= llen g / 3 ->
+  sublist (3 * r) (3 * r + 3) (idx g) = idx [mkPart x (x + 3) (lstrand g)] ->
+  tta_marker g (3 * r) = Ok [mkPart x (x + 3) (lstrand g)] /\
+  (forall sq, extract sq [mkPart x (x + 3) (lstrand g)] = sublist (3 * r) (3 * r + 3) (extract sq g)).
+Proof. exact tta_guard. Qed.
+Print Assumptions C09_tta_multi_exon.
+
+(* non-vacuity: the former witness of the finding (the codon at spliced offset 6 of
+   join{[0:4](+), [10:15](+)} was marked at [6:9], in the intron) and a reverse-strand gene of
+   three exons *)
+Example C09_tta_multi_exon_nonvacuous :
+  let g := [mkPart 0 4 1; mkPart 10 15 1] in
+  let h := [mkPart 40 52 (-1); mkPart 20 31 (-1); mkPart 3 10 (-1)] in
+  guard_gene g = true /\ sublist 6 9 (idx g) = idx [mkPart 12 15 1] /\
+  tta_marker g 6 = Ok [mkPart 12 15 1] /\
+  guard_gene h = true /\ sublist 12 15 (idx h) = idx [mkPart 28 31 (-1)] /\
+  tta_marker h 12 = Ok [mkPart 28 31 (-1)].
+Proof. repeat split; vm_compute; reflexivity. Qed.
+
+(* STILL FALSE (finding tta_codon_split_by_intron, what is left of tta_multi_exon): a codon that an
+   intron splits - offset 3 of join{[0:4](+), [10:15](+)} is the coordinates 3, 10, 11 - cannot be
+   covered by a marker of one part; the marker [3:6] starts at the codon's first base and runs into
+   the intron *)
+Theorem C09_tta_split_codon_refuted :
+  exists g r m, guard_gene g = true /\ 0 <= r /\ r + 1 <= llen g / 3 /\ codon_split g (3 * r) = true /\
+    tta_marker g (3 * r) = Ok m /\ idx m <> sublist (3 * r) (3 * r + 3) (idx g).
+Proof. exact tta_split_codon_refuted. Qed.
+Print Assumptions C09_tta_split_codon_refuted.
 
 (* codon_start: whenever from_biopython's adjustment of a gene that does not span the origin
    succeeds, to_biopython's undo restores exactly the original location *)
@@ -107,12 +137,31 @@ Example C09_codon_start_nonvacuous :
   guard_gene g = true /\ frameshift g 3 false = Ok [mkPart 40 50 (-1); mkPart 20 31 (-1)].
 Proof. split; vm_compute; reflexivity. Qed.
 
-(* FALSE for a gene that spans the origin: codon_start 2 makes the adjustment itself raise
-   AssertionError (the assertion compares the first listed exon with location.start) *)
-Theorem C09_codon_start_origin_refuted :
-  exists g cs, spanning_gene g = true /\ 1 <= cs <= 3 /\ frameshift g cs false = Err E_Assert.
-Proof. exact codon_start_origin_refuted. Qed.
-Print Assumptions C09_codon_start_origin_refuted.
+(* A gene that spans the origin (repaired: finding origin_spanning_codon_start; the assertion about
+   the first listed exon is only made for locations that do not cross the origin): on strand 1/-1,
+   with the offset not longer than the first listed exon, the adjustment succeeds, the adjusted
+   location lies inside the annotated one and reads it from base codon_start-1 on (coordinates and,
+   for every sequence, bases), has codon_start-1 bases less, and to_biopython's undo restores the
+   annotated location.  [first_exon_len] is defined below (length of the first LISTED exon). *)
+Theorem C09_codon_start_origin : forall g cs,
+  spanning_gene g = true -> lstrand g = 1 \/ lstrand g = -1 ->
+  1 <= cs <= 3 -> cs - 1 <= first_exon_len g ->
+  exists g', frameshift g cs false = Ok g' /\
+    idx g' = skipn (Z.to_nat (cs - 1)) (idx g) /\
+    llen g' = llen g - (cs - 1) /\
+    contains g g' = true /\
+    (forall sq, extract sq g' = skipn (Z.to_nat (cs - 1)) (extract sq g)) /\
+    frameshift g' cs true = Ok g.
+Proof. exact codon_start_origin. Qed.
+Print Assumptions C09_codon_start_origin.
+
+(* non-vacuity: the former witnesses of the finding (AssertionError before the repair) *)
+Example C09_codon_start_origin_nonvacuous :
+  let g := [mkPart 90 102 1; mkPart 0 21 1] in
+  let h := [mkPart 0 21 (-1); mkPart 90 102 (-1)] in
+  spanning_gene g = true /\ frameshift g 2 false = Ok [mkPart 91 102 1; mkPart 0 21 1] /\
+  spanning_gene h = true /\ frameshift h 3 false = Ok [mkPart 0 19 (-1); mkPart 90 102 (-1)].
+Proof. repeat split; vm_compute; reflexivity. Qed.
 
 (* ---------- the codon_start path and the loading path of a CDS ---------- *)
 (* [first_exon_len g] = length of the first LISTED exon (the 5' one); [shorten]ed by codon_start-1
